@@ -127,7 +127,7 @@ def replay(recs):
         dim, x0, hist, exp, stratum = r["d"], r["x"], r["h"], r["c"], r["s"]
         case = {"d": dim, "x": x0, "h": hist, "ms": r["ms"]}
         site0 = f"{x0['k']}/{dim}D"
-        for variant in ("sequential", "apply()", "composite", "transformation-edited-in-place"):
+        for variant in ("sequential", "apply()", "composite", "composite/apply()", "transformation-edited-in-place"):
             try:
                 x = build_any(x0, dim)
                 ts = [make_op(g, op, M, reused=(variant == "transformation-edited-in-place")) for op, M in zip(hist, r["ms"])]
@@ -144,8 +144,8 @@ def replay(recs):
                         continue
                     T = ts[0]
                     for t in ts[1:]:
-                        T = t * T
-                    y = T * x
+                        T = (t * T) if variant == "composite" else t.apply(T)
+                    y = (T * x) if variant == "composite" else T.apply(x)
                 d = compare_any(y, exp)
                 if d is None and type(y) is not type(x):
                     d = f"result type {type(y).__name__} != {type(x).__name__}"
@@ -348,7 +348,7 @@ def run(ctx: Ctx):
         ctx.count(x["s"])
         if x["s"] != "general":
             ctx.nontrivial((x["d"], json.dumps(x["x"]), json.dumps(x["h"])))
-    ctx.cov["traces_validated_against_impl"] += len(recs) * 4 + len(gl) + len(tl)
+    ctx.cov["traces_validated_against_impl"] += len(recs) * 5 + len(gl) + len(tl)
     ctx.sample({k: recs[7][k] for k in ("d", "x", "h", "c")})
     ctx.sample({k: recs[-7][k] for k in ("d", "x", "h", "c")})
     # ---- code -> spec: recorded calls on larger coordinates, validated by TLC against Trace_Ops.tla
